@@ -112,6 +112,37 @@ def so3_kernels(funcs, consts):
         doc="orix/sampling/SO3_sampling.py::_three_uniform_samples_method (one grid quaternion from u1, u2, u3)"))]
 
 
+def polar_kernels(funcs, consts):
+    """`Vector3d.from_polar` in radians (C19, C20): the statements that compute `x, y, z` from `azimuth, polar` (from the
+    first use of `np.sin(polar)` to the `np.stack((x, y, z), …)` of the return), on two symbolic scalars; the `degrees`
+    conversion and the multiplication by `radial` are left to the correspondence check"""
+    f = funcs.get("from_polar")
+    if f is None or not isinstance(f.body[-1], ast.Return):
+        raise py2lean.Unsupported("from_polar: pattern not found")
+    tup = [n for n in ast.walk(f.body[-1]) if isinstance(n, (ast.Tuple, ast.List)) and len(n.elts) == 3
+           and all(isinstance(e, ast.Name) for e in n.elts)]
+    if len(tup) != 1:
+        raise py2lean.Unsupported("from_polar: stacked components not found")
+    names = [e.id for e in tup[0].elts]
+    # the block starts after the last statement that rebinds the arguments (atleast_1d, degrees conversion)
+    args = [a.arg for a in f.args.args]
+    if not {"azimuth", "polar"} <= set(args):
+        raise py2lean.Unsupported("from_polar: argument names")
+    start = 0
+    for i, st in enumerate(f.body[:-1]):
+        if isinstance(st, ast.If) or (isinstance(st, ast.Assign) and any(isinstance(t, ast.Name) and t.id in ("azimuth", "polar")
+                                                                         for t in st.targets)):
+            start = i + 1
+    interp = py2lean.Interp(funcs, dict(consts))
+    vals, flat = py2lean.sym_params(interp, [("azimuth", None), ("polar", None)])
+    r = interp.exec_block(f.body[start:-1], {"azimuth": vals[0], "polar": vals[1], "cls": py2lean.NONE})
+    if r[0] != "fall":
+        raise py2lean.Unsupported("from_polar: early return")
+    value = [r[1][n] for n in names]
+    return [("from_polar_xyz", 2, py2lean.emit_def("from_polar_xyz", flat, value, interp,
+                                                    doc="orix/vector/vector3d.py::Vector3d.from_polar (radians, unit radius)"))]
+
+
 def module_constants():
     """numeric module-level constants of orix/constants.py, read from its AST"""
     out = {}
@@ -228,6 +259,14 @@ def generate():
             extra_arity[lean] = n
     except (py2lean.Unsupported, KeyError, IndexError, TypeError, AttributeError) as e:
         status.setdefault("so3_quat_point", f"not translated: {e}")
+    try:
+        rel = "orix/vector/vector3d.py"
+        for lean, n, text in polar_kernels(cache.setdefault(rel, load_funcs(rel)), consts):
+            parts.append(text)
+            status[lean] = "translated"
+            extra_arity[lean] = n
+    except (py2lean.Unsupported, KeyError, IndexError, TypeError, AttributeError) as e:
+        status.setdefault("from_polar_xyz", f"not translated: {e}")
     # registry for the driver: name -> list function
     reg = ["/-- generated kernels by name, as list functions (for the line-protocol driver) -/",
            "def registry {α : Type} [Scalar α] : List (String × (List α → Option (List α))) := ["]
